@@ -185,6 +185,7 @@ def run(ctx):
     ctx.check("C07.R5", "append arm: rewind to 0 before the existing header is read", ok, wi.where(t.ast), "Writer.__init__: append arm rewind", "the existing header must be read from offset 0")
 
     # ---- shared ----
+    ctx.borrow("C05", {"C05.R2": "C07.R8"}, "write_block re-emits what block_reader hands out: a history that copies blocks between files keeps every record only if the block iterator yields every block of the donor file (count, payload) and checks its sync marker", only=lambda o: "_iter_avro_blocks" in o.get("where", ""))
     ctx.borrow("C04", {"C04.R2": "C07.R6", "C04.R3": "C07.R7"}, "every history starts with the header of the new-file path and proceeds through the writer typestate: a wrong header or dump sequence makes the written history unreadable")
 
 
